@@ -158,7 +158,25 @@ func (sc *Scenario) configYAML() string {
 	f("AutoFertilization", onoff(sc.AutoFert))
 	f("AutoIrrigation", onoff(sc.AutoIrr))
 	f("AutoHarvest", onoff(sc.AutoHarvest))
-	return b.String()
+	out := b.String()
+	if len(sc.FileOverrides) > 0 {
+		lines := strings.Split(strings.TrimRight(out, "\n"), "\n")
+		seen := map[string]bool{}
+		for i, l := range lines {
+			k := l[:strings.Index(l, ":")]
+			if v, ok := sc.FileOverrides[k]; ok {
+				lines[i] = k + ": " + v
+				seen[k] = true
+			}
+		}
+		for k, v := range sc.FileOverrides {
+			if !seen[k] {
+				lines = append(lines, k+": "+v)
+			}
+		}
+		out = strings.Join(lines, "\n") + "\n"
+	}
+	return out
 }
 
 func fmtG(x float64) string { return strconv.FormatFloat(x, 'g', -1, 64) }
